@@ -153,4 +153,298 @@ pub proof fn lemma_lost_entry_other_queues(es: Seq<Seq<u8>>, j: int, v: LogView,
     lemma_replay_isolation(es.remove(j), v, v, k);
 }
 
+// ------------------------------------------------------------------------------------------------------------------------------------
+// The SAME queue: when one entry addressed to queue k is lost, every record of k that was not written by the lost entry and is retained
+// in the intact run is retained in the damaged run as well (provided recovery succeeds in both).
+
+/// records in strictly increasing positions, none before `start`
+pub open spec fn ord(q: QView) -> bool {
+    &&& forall|i: int, j: int| 0 <= i < j < q.recs.len() ==> q.recs[i].0 < q.recs[j].0
+    &&& forall|i: int| 0 <= i < q.recs.len() ==> q.start <= (#[trigger] q.recs[i]).0
+}
+pub open spec fn log_ord(v: LogView) -> bool { forall|k: String| v.contains_key(k) ==> ord(#[trigger] v[k]) }
+
+/// a sorted sequence splits at p
+proof fn lemma_sorted_split(recs: Seq<(u64, Seq<u8>)>, p: u64) -> (k: int)
+    requires forall|i: int, j: int| 0 <= i < j < recs.len() ==> recs[i].0 < recs[j].0,
+    ensures
+        0 <= k <= recs.len(),
+        forall|j: int| 0 <= j < k ==> (#[trigger] recs[j]).0 <= p,
+        forall|j: int| k <= j < recs.len() ==> (#[trigger] recs[j]).0 > p,
+    decreases recs.len(),
+{
+    if recs.len() == 0 { 0 }
+    else if recs.last().0 <= p { recs.len() as int }
+    else {
+        let k = lemma_sorted_split(recs.drop_last(), p);
+        assert forall|j: int| 0 <= j < k implies (#[trigger] recs[j]).0 <= p by { assert(recs.drop_last()[j] == recs[j]); }
+        assert forall|j: int| k <= j < recs.len() implies (#[trigger] recs[j]).0 > p by {
+            if j < recs.len() - 1 { assert(recs.drop_last()[j] == recs[j]); }
+        }
+        k
+    }
+}
+
+/// truncate(..=p) keeps exactly the records above p, and keeps the order
+pub proof fn lemma_truncate_members(q: QView, p: u64)
+    requires ord(q),
+    ensures
+        ord(q.truncate(p)),
+        forall|r: (u64, Seq<u8>)| #![trigger q.truncate(p).recs.contains(r)] #![trigger q.recs.contains(r)]
+            q.truncate(p).recs.contains(r) <==> (q.recs.contains(r) && r.0 > p),
+{
+    let t = q.truncate(p);
+    if p < q.start {
+        assert forall|r: (u64, Seq<u8>)| q.recs.contains(r) implies r.0 > p by {
+            let i = choose|i: int| 0 <= i < q.recs.len() && q.recs[i] == r;
+            assert(q.start <= q.recs[i].0);
+        }
+    } else if p + 1 >= q.next() {
+        assert forall|r: (u64, Seq<u8>)| q.recs.contains(r) implies r.0 <= p by {
+            let i = choose|i: int| 0 <= i < q.recs.len() && q.recs[i] == r;
+            if i < q.recs.len() - 1 { assert(q.recs[i].0 < q.recs[q.recs.len() - 1].0); }
+        }
+        assert(t.recs.len() == 0);
+    } else {
+        let k = lemma_sorted_split(q.recs, p);
+        lemma_split_filter(q.recs, p, k);
+        assert(t.recs =~= q.recs.skip(k));
+        assert forall|r: (u64, Seq<u8>)| t.recs.contains(r) <==> (q.recs.contains(r) && r.0 > p) by {
+            if t.recs.contains(r) {
+                let i = choose|i: int| 0 <= i < t.recs.len() && t.recs[i] == r;
+                assert(q.recs[i + k] == r);
+            }
+            if q.recs.contains(r) && r.0 > p {
+                let i = choose|i: int| 0 <= i < q.recs.len() && q.recs[i] == r;
+                assert(i >= k);
+                assert(t.recs[i - k] == r);
+            }
+        }
+        assert forall|i: int| 0 <= i < t.recs.len() implies t.start <= (#[trigger] t.recs[i]).0 by { assert(t.recs[i] == q.recs[i + k]); }
+        assert forall|i: int, j: int| 0 <= i < j < t.recs.len() implies t.recs[i].0 < t.recs[j].0 by {
+            assert(t.recs[i] == q.recs[i + k]); assert(t.recs[j] == q.recs[j + k]);
+        }
+    }
+}
+
+/// replaying a batch into queue k adds exactly its items to k (when it succeeds), keeps the order, touches nothing else
+pub proof fn lemma_items_members(v: LogView, k: String, items: Seq<(u64, Seq<u8>)>)
+    requires v.contains_key(k), ord(v[k]), replay_items(v, k, items) is Some,
+    ensures ({
+        let v2 = replay_items(v, k, items).unwrap();
+        &&& v2.contains_key(k)
+        &&& ord(v2[k])
+        &&& forall|r: (u64, Seq<u8>)| #![trigger v2[k].recs.contains(r)] #![trigger v[k].recs.contains(r)] #![trigger items.contains(r)]
+                v2[k].recs.contains(r) <==> (v[k].recs.contains(r) || items.contains(r))
+    }),
+    decreases items.len(),
+{
+    if items.len() > 0 {
+        let q = v[k];
+        let q1 = q.append(items[0].0, items[0].1);
+        let v1 = v.insert(k, q1);
+        assert(items[0].0 >= q.next());
+        assert(ord(q1)) by {
+            assert forall|i: int, j: int| 0 <= i < j < q1.recs.len() implies q1.recs[i].0 < q1.recs[j].0 by {
+                if j == q.recs.len() {
+                    assert(q1.recs[i] == q.recs[i]);
+                    if i < q.recs.len() - 1 { assert(q.recs[i].0 < q.recs[q.recs.len() - 1].0); }
+                } else { assert(q1.recs[i] == q.recs[i]); assert(q1.recs[j] == q.recs[j]); }
+            }
+            assert forall|i: int| 0 <= i < q1.recs.len() implies q1.start <= (#[trigger] q1.recs[i]).0 by {
+                if i < q.recs.len() { assert(q1.recs[i] == q.recs[i]); }
+            }
+        }
+        lemma_items_members(v1, k, items.skip(1));
+        let v2 = replay_items(v, k, items).unwrap();
+        let v2b = replay_items(v1, k, items.skip(1)).unwrap();
+        assert(v2 == v2b);
+        assert forall|r: (u64, Seq<u8>)| #![trigger v2[k].recs.contains(r)] v2[k].recs.contains(r) implies (q.recs.contains(r) || items.contains(r)) by {
+            assert(q1.recs.contains(r) || items.skip(1).contains(r));
+            if q1.recs.contains(r) {
+                let i = choose|i: int| 0 <= i < q1.recs.len() && q1.recs[i] == r;
+                if i < q.recs.len() { assert(q.recs[i] == r); } else { assert(items[0] == r); }
+            } else {
+                let i = choose|i: int| 0 <= i < items.skip(1).len() && items.skip(1)[i] == r;
+                assert(items[i + 1] == r);
+            }
+        }
+        assert forall|r: (u64, Seq<u8>)| #![trigger q.recs.contains(r)] #![trigger items.contains(r)] (q.recs.contains(r) || items.contains(r)) implies v2[k].recs.contains(r) by {
+            if q.recs.contains(r) {
+                let i = choose|i: int| 0 <= i < q.recs.len() && q.recs[i] == r;
+                assert(q1.recs[i] == r);
+                assert(v1[k].recs.contains(r));
+                assert(v2b[k].recs.contains(r));
+            } else {
+                let i = choose|i: int| 0 <= i < items.len() && items[i] == r;
+                if i == 0 { assert(q1.recs[q.recs.len() as int] == r); assert(v1[k].recs.contains(r)); assert(v2b[k].recs.contains(r)); }
+                else { assert(items.skip(1)[i - 1] == r); assert(items.skip(1).contains(r)); assert(v2b[k].recs.contains(r)); }
+            }
+        }
+        assert(v2.contains_key(k));
+        assert(ord(v2[k]));
+        assert forall|r: (u64, Seq<u8>)| #![trigger v2[k].recs.contains(r)] #![trigger v[k].recs.contains(r)] #![trigger items.contains(r)]
+            v2[k].recs.contains(r) <==> (v[k].recs.contains(r) || items.contains(r)) by { }
+    } else {
+        assert forall|r: (u64, Seq<u8>)| !items.contains(r) by { }
+        assert(replay_items(v, k, items).unwrap() == v);
+        assert forall|r: (u64, Seq<u8>)| #![trigger v[k].recs.contains(r)] #![trigger items.contains(r)]
+            v[k].recs.contains(r) <==> (v[k].recs.contains(r) || items.contains(r)) by { }
+    }
+}
+
+/// every record of queue k in `a` that is not in the lost set is a record of queue k in `b`
+pub open spec fn covers_k(a: LogView, b: LogView, k: String, lost: Set<(u64, Seq<u8>)>) -> bool {
+    a.contains_key(k) ==> forall|r: (u64, Seq<u8>)| #[trigger] a[k].recs.contains(r) && !lost.contains(r) ==> b.contains_key(k) && b[k].recs.contains(r)
+}
+pub open spec fn ord_k(a: LogView, k: String) -> bool { a.contains_key(k) ==> ord(a[k]) }
+
+/// one replay step addressed to k keeps queue k ordered
+pub proof fn lemma_entry_ord(v: LogView, e: EntryView, k: String)
+    requires ord_k(v, k), replay_entry(v, e) is Some,
+    ensures ord_k(replay_entry(v, e).unwrap(), k),
+{
+    let k2 = skey(e.queue);
+    if k2 != k {
+        lemma_entry_frame(v, e, k);
+    } else if e.kind == 4 {
+        let v1 = if !v.contains_key(k) { log_ack(v, k, e.position) } else { v };
+        lemma_items_members(v1, k, parse_items(e.body).unwrap());
+    } else if e.kind == 1 {
+        if v.contains_key(k) { lemma_truncate_members(v[k], e.position); }
+    }
+}
+
+/// the same step applied to both runs keeps "b covers a on queue k"
+pub proof fn lemma_entry_covers(a: LogView, b: LogView, e: EntryView, k: String, lost: Set<(u64, Seq<u8>)>)
+    requires
+        covers_k(a, b, k, lost), ord_k(a, k), ord_k(b, k),
+        replay_entry(a, e) is Some, replay_entry(b, e) is Some,
+    ensures covers_k(replay_entry(a, e).unwrap(), replay_entry(b, e).unwrap(), k, lost),
+{
+    let a2 = replay_entry(a, e).unwrap();
+    let b2 = replay_entry(b, e).unwrap();
+    if skey(e.queue) != k {
+        lemma_entry_frame(a, e, k);
+        lemma_entry_frame(b, e, k);
+    } else if e.kind == 4 {
+        let items = parse_items(e.body).unwrap();
+        let a1 = if !a.contains_key(k) { log_ack(a, k, e.position) } else { a };
+        let b1 = if !b.contains_key(k) { log_ack(b, k, e.position) } else { b };
+        lemma_items_members(a1, k, items);
+        lemma_items_members(b1, k, items);
+        assert forall|r: (u64, Seq<u8>)| #[trigger] a2[k].recs.contains(r) && !lost.contains(r) implies b2.contains_key(k) && b2[k].recs.contains(r) by {
+            if a1[k].recs.contains(r) {
+                assert(a.contains_key(k) && a[k].recs.contains(r));
+                assert(b.contains_key(k) && b[k].recs.contains(r));
+            }
+        }
+    } else if e.kind == 1 {
+        if a.contains_key(k) { lemma_truncate_members(a[k], e.position); }
+        if b.contains_key(k) { lemma_truncate_members(b[k], e.position); }
+        if a.contains_key(k) {
+            assert forall|r: (u64, Seq<u8>)| #[trigger] a2[k].recs.contains(r) && !lost.contains(r) implies b2.contains_key(k) && b2[k].recs.contains(r) by {
+                assert(a[k].recs.contains(r) && r.0 > e.position);
+            }
+        }
+    } else if e.kind == 2 {
+        // position record: a is unchanged (then b is unchanged or ... covers a fortiori?) or a is emptied
+        if a.contains_key(k) && a[k].recs.len() == 0 && a[k].next() == e.position {
+            // a unchanged and empty: nothing to cover
+        }
+        assert(a2.contains_key(k));
+        assert(a2[k].recs.len() == 0 || a2 == a);
+        if a2[k].recs.len() > 0 {
+            // a2 == a with records: log_ack would have reset it
+            assert(false);
+        }
+        assert forall|r: (u64, Seq<u8>)| #[trigger] a2[k].recs.contains(r) && !lost.contains(r) implies b2.contains_key(k) && b2[k].recs.contains(r) by {
+            let i = choose|i: int| 0 <= i < a2[k].recs.len() && a2[k].recs[i] == r;
+        }
+    }
+}
+
+/// both runs replay the SAME remaining entries: "b covers a on queue k" is kept to the end
+pub proof fn lemma_replay_covers(es: Seq<Seq<u8>>, a: LogView, b: LogView, k: String, lost: Set<(u64, Seq<u8>)>)
+    requires
+        covers_k(a, b, k, lost), ord_k(a, k), ord_k(b, k),
+        replay_bytes(es, a) is Some, replay_bytes(es, b) is Some,
+    ensures covers_k(replay_bytes(es, a).unwrap(), replay_bytes(es, b).unwrap(), k, lost),
+    decreases es.len(),
+{
+    if es.len() > 0 {
+        match parse_entry(es[0]) {
+            None => { lemma_replay_covers(es.skip(1), a, b, k, lost); },
+            Some(e) => {
+                lemma_entry_covers(a, b, e, k, lost);
+                lemma_entry_ord(a, e, k);
+                lemma_entry_ord(b, e, k);
+                lemma_replay_covers(es.skip(1), replay_entry(a, e).unwrap(), replay_entry(b, e).unwrap(), k, lost);
+            },
+        }
+    }
+}
+
+/// the records the entry writes (none for a truncate / position record / delete)
+pub open spec fn entry_records(e: EntryView) -> Set<(u64, Seq<u8>)> {
+    if e.kind == 4 { match parse_items(e.body) { Some(items) => items.to_set(), None => Set::empty() } } else { Set::empty() }
+}
+
+/// L-C09 (same queue): entry j is lost; every record the intact run retains in queue k and that entry j did not write is retained by the damaged
+/// run as well -- provided recovery succeeds in both runs
+pub proof fn lemma_lost_entry_same_queue(es: Seq<Seq<u8>>, j: int, v: LogView, k: String)
+    requires
+        0 <= j < es.len(),
+        ord_k(v, k),
+        replay_bytes(es, v) is Some,
+        replay_bytes(es.remove(j), v) is Some,
+    ensures ({
+        let lost = match parse_entry(es[j]) { Some(e) => entry_records(e), None => Set::empty() };
+        covers_k(replay_bytes(es, v).unwrap(), replay_bytes(es.remove(j), v).unwrap(), k, lost)
+    }),
+    decreases es.len(),
+{
+    let lost = match parse_entry(es[j]) { Some(e) => entry_records(e), None => Set::empty() };
+    if j == 0 {
+        assert(es.remove(0) =~= es.skip(1));
+        match parse_entry(es[0]) {
+            None => { lemma_replay_covers(es.skip(1), v, v, k, lost); },
+            Some(e) => {
+                let a = replay_entry(v, e).unwrap();
+                lemma_entry_ord(v, e, k);
+                // what the lost entry did to queue k: it removed records or added its own
+                assert(covers_k(a, v, k, lost)) by {
+                    if skey(e.queue) != k { lemma_entry_frame(v, e, k); }
+                    else if e.kind == 4 {
+                        let items = parse_items(e.body).unwrap();
+                        let v1 = if !v.contains_key(k) { log_ack(v, k, e.position) } else { v };
+                        lemma_items_members(v1, k, items);
+                        assert forall|r: (u64, Seq<u8>)| #[trigger] a[k].recs.contains(r) && !lost.contains(r) implies v.contains_key(k) && v[k].recs.contains(r) by {
+                            assert(!items.contains(r));
+                            assert(v1[k].recs.contains(r));
+                        }
+                    } else if e.kind == 1 {
+                        if v.contains_key(k) { lemma_truncate_members(v[k], e.position); }
+                    } else if e.kind == 2 {
+                        assert(a[k].recs.len() == 0 || a == v);
+                    }
+                }
+                lemma_replay_covers(es.skip(1), a, v, k, lost);
+            },
+        }
+    } else {
+        let r = es.remove(j);
+        assert(r[0] == es[0]);
+        assert(r.skip(1) =~= es.skip(1).remove(j - 1));
+        assert(es.skip(1)[j - 1] == es[j]);
+        match parse_entry(es[0]) {
+            None => { lemma_lost_entry_same_queue(es.skip(1), j - 1, v, k); },
+            Some(e) => {
+                lemma_entry_ord(v, e, k);
+                lemma_lost_entry_same_queue(es.skip(1), j - 1, replay_entry(v, e).unwrap(), k);
+            },
+        }
+    }
+}
+
 } // verus!
